@@ -927,12 +927,21 @@ def evaluate__apply(self: XPathFunction, context: ta.ContextType = None) \
     func = self.get_argument(context, required=True, cls=XPathFunction)
     array_ = self.get_argument(context, index=1, required=True, cls=XPathArray)
 
+    # The arity of the function must be the size of the array: the errors raised
+    # inside the function are not errors of fn:apply
+    arguments = array_.items(context)
     try:
-        return func(*array_.items(context), context=context)
+        if isinstance(func, (XPathMap, XPathArray)):
+            if len(arguments) != 1:
+                raise self.error('FOAP0001')
+        else:
+            func.check_arguments_number(len(arguments))
     except ElementPathTypeError as err:
         if err.code is None or not err.code.endswith(('XPST0017', 'XPTY0004')):
             raise
         raise self.error('FOAP0001') from None
+
+    return func(*arguments, context=context)
 
 
 @method(function('parse-ietf-date', nargs=1,
